@@ -122,3 +122,42 @@ def perturb(b, name):
         b.collect_garbage(list(b._succ))
     else:
         raise ValueError(name)
+
+
+def run_sandwich(spec, out, calls, nm=None):
+    """Generic driver: `calls(b, refs, nm, den)` yields (case, fn) where
+    fn() performs one API call and raises Violation if its result is
+    wrong.  Everything is run, then the perturbation, then everything
+    again."""
+    from .denote import Den
+    from . import inv
+    nm = nm or names(3)
+    b, refs = sandwich_manager(spec['order'], nm, spec['pos'])
+    base = {k: spec[k] for k in ('kind', 'perturbation', 'pos', 'order',
+                                 'seed')}
+    universe = tuple(nm) + ('zz', 'zz_new')
+    cnt = 0
+    for phase in ('before', 'after'):
+        if phase == 'after':
+            if not out.guard(dict(base, phase='perturb'),
+                             lambda: perturb(b, spec['perturbation'])):
+                break
+        den = Den(b, universe)
+        for case, fn in calls(b, refs, nm, den):
+            out.guard(dict(base, phase=phase, **case), fn)
+            cnt += 1
+    out.guard(dict(base, phase='structure'), lambda: inv.check_structure(b))
+    out.count(cnt, cnt // 2)
+    out.sample(dict(base, note='sweep, perturb, sweep again'))
+    out.exhaustive = True
+
+
+def sandwich_specs(tier, seed, kind='sandwich'):
+    specs = []
+    for pi, pert in enumerate(PERTURBATIONS):
+        for pos in range(4):
+            if tier == 'quick' and (pi + pos + seed) % 2:
+                continue
+            specs.append(dict(kind=kind, perturbation=pert, pos=pos,
+                              order=orders(3)[(pi + pos) % 6], seed=seed))
+    return specs
